@@ -55,6 +55,9 @@ func CSVConsumer(opts ...CSVOpt) Consumer {
 		if data == nil {
 			return errors.New("nil destination for CSVConsumer")
 		}
+		if v := reflect.ValueOf(data); v.Kind() == reflect.Ptr && v.IsNil() {
+			return errors.New("nil pointer destination for CSVConsumer")
+		}
 
 		csvReader := csv.NewReader(reader)
 		o.applyToReader(csvReader)
